@@ -58,7 +58,9 @@ JudgeInput(c, l, inp) ==
       sent == InLang(c.rules, c.start, inp.w)
       acc == inp.out = 0
       noSR == SRConflicts(c.rules, c.start, l) = {}
-  IN IF r[1] = "loop" THEN (IF inp.out = 0 THEN "accepted-where-automaton-loops" ELSE "ok")   \* hangs are C08's business
+  IN IF r[1] = "loop" THEN (IF inp.out = 0 THEN "accepted-where-automaton-loops"
+                            ELSE IF sent /\ noSR THEN "sentence-not-accepted@automaton-loops"
+                            ELSE "ok")   \* a hang on a non-sentence is C08's business
      ELSE IF inp.out > 1 THEN "not-UnexpectedInput-or-hang"
      ELSE IF acc /\ ~sent THEN "accepted-nonsentence"
      ELSE IF noSR /\ sent /\ ~acc THEN "rejected-sentence-of-conflict-free-grammar"
